@@ -74,6 +74,8 @@ def generate(rng, tier, seed):
             special = [a8 * 2, a8 * 3, a8 * 4, bytes(16), bytes(32), b"\xff" * 24,
                        # keys that happen to be ASCII text / ASCII hex digits are binary keys like any other
                        b"1" * 16, b"1" * 32, b"00112233445566778899AABBCCDDEEFF", (b"0123456789abcdef" * 2)[:24], b"A" * 32]
+        for ks_ in ksizes:
+            special += core.special_keys(rng, ks_, des=(alg == "tdes"), limit=10 if tier == "quick" else None)
         for key in special:
             iv, data = rb(rng, bs), rb(rng, 3 * bs)
             c = Case(f"{alg}:structured-key", {"key": key.hex()[:16], "len": len(key)})
